@@ -114,8 +114,10 @@ PathFrom(p) ==
            rest == PathFrom(Skip(p + MLen(t, p)))
        IN <<<<t>> \o rest[1], <<p>> \o rest[2]>>
 
-LineOf(pos) == 1 + Cardinality({ i \in 1..pos : In[i] = 10 })
-ColOf(pos) == LET nls == { i \in 1..pos : In[i] = 10 } IN
+\* for a list (non-string) input the documented convention is line 1, column = position
+LineOf(pos) == IF C.listinput THEN 1 ELSE 1 + Cardinality({ i \in 1..pos : In[i] = 10 })
+ColOf(pos) == IF C.listinput THEN pos ELSE
+              LET nls == { i \in 1..pos : In[i] = 10 } IN
               pos - (IF nls = {} THEN 0 ELSE CHOOSE m \in nls : \A j \in nls : j <= m)
 
 ErrClauses(who, r, errNode, expected, checkExpected) ==
